@@ -14,6 +14,7 @@ import (
 	"mellium.im/xmpp"
 	"mellium.im/xmpp/internal/xmpptest"
 	"mellium.im/xmpp/jid"
+	"mellium.im/xmpp/stanza"
 )
 
 func TestGvcAdapterBindResource(t *testing.T) {
@@ -38,4 +39,27 @@ func TestGvcAdapterBindResource(t *testing.T) {
 		return
 	}
 	fmt.Println("NOT-REPRODUCED bind: request carries <resource>myres</resource>")
+}
+
+// The receiving side's callback refuses the requested resource with a stanza
+// error: the reply must be an error IQ and the feature must not report the
+// session ready with a nil error.
+func TestGvcAdapterBindRefused(t *testing.T) {
+	var out bytes.Buffer
+	rw := struct {
+		io.Reader
+		io.Writer
+	}{strings.NewReader(`<iq xmlns="jabber:client" id="b1" type="set"><bind xmlns="urn:ietf:params:xml:ns:xmpp-bind"><resource>taken</resource></bind></iq>`), &out}
+	s := xmpptest.NewClientSession(xmpp.Received|xmpp.Secure|xmpp.Authn, rw)
+	f := xmpp.BindCustom(func(j jid.JID, res string) (jid.JID, error) {
+		return jid.JID{}, stanza.Error{Type: stanza.Cancel, Condition: stanza.Conflict}
+	})
+	mask, _, err := f.Negotiate(context.Background(), s, nil)
+	wire := out.String()
+	if (err == nil && mask&xmpp.Ready != 0) || !strings.Contains(wire, `type="error"`) {
+		fmt.Printf("REPRODUCED bind: the application refused the resource (conflict) but the feature returned mask=%v err=%v and the reply is %s\n", mask, err, wire)
+		t.Fail()
+		return
+	}
+	fmt.Printf("NOT-REPRODUCED bind refused: mask=%v err=%v reply=%s\n", mask, err, wire)
 }
